@@ -36,7 +36,10 @@ def run(ctx: Context) -> None:
         snd = [c for c in own_nodes(sd.node) if isinstance(c, ast.Call) and norm(c.func) == "self._h2_state.send_data"]
         rep.floor("C13.R1", f"send_data call ({tree})", len(snd), 1)
         for c in snd:
-            alts = [norm(a).replace("await", "") for a in ctx.prov.expand(c.args[1], sd, c)] if len(c.args) > 1 else []
+            import re as _re
+
+            # `f(request=request, stream_id=stream_id)` is `f(request, stream_id)`: same-named keywords written out
+            alts = [_re.sub(r"\b(\w+)=\1\b", r"\1", norm(a).replace("await", "")) for a in ctx.prov.expand(c.args[1], sd, c)] if len(c.args) > 1 else []
             want = "data[:min(len(data),self._wait_for_outgoing_flow(request,stream_id))]"
             # a slice is bounded by its upper index whether or not len(data) is folded into it
             wants = (want, "data[:self._wait_for_outgoing_flow(request,stream_id)]")
